@@ -11,6 +11,11 @@ TB = ('Trusted base: CrossHair 0.0.110 (its models of str/int/list/dict and its 
 
 # id -> (technique, level text, design ref)  -- only properties whose module exists are claimed
 CLAIMS = {
+    'C11': ('bounded symbolic execution (CrossHair/z3) of the real extract_abbreviation over all short lines x all integer carets x '
+            'option sets, plus templates with concrete valid abbreviations and symbolic left/right context',
+            'Consistency clauses: path tree of the real extractor exhausted for every ASCII line up to the stated length, every '
+            'integer caret and every option set. Round trip: for each abbreviation of a generated family and every symbolic '
+            'left/right context within the bound, extraction at its end returns exactly that abbreviation.', '§3 C11'),
     'C16': ('bounded symbolic execution (CrossHair/z3) of the real scanners and matchers over all short strings x all integer positions',
             'Every ASCII string up to the stated length and every integer position: the path tree of the real '
             'HTML/CSS scanners, matchers, balance functions, attribute parser and value splitter is exhausted; '
